@@ -46,6 +46,9 @@ class Walker:
 
     # ------------------------------------------------------------------
     def block(self, stmts, env: Env) -> Env:
+        # clients may update ``env`` in place from on_stmt (ownership freezes names); a private copy per block keeps
+        # such effects out of the sibling branch while they still flow to the block's continuation
+        env = dict(env)
         for st in stmts:
             env = self.stmt(st, env)
         return env
